@@ -205,14 +205,14 @@ QueryOK(e) ==
          /\ ("tail0" \in DOMAIN e) => e.tail0)
     [] e.ev = "semhash" -> Req("C11", HashOK(e))
     [] e.ev \in {"mmap", "meu", "bb"} -> Req("C12", OptOK(e))
-    [] e.ev \in {"topvar", "mc", "wmcr", "wmcc", "wmcp", "json", "cnt", "sddpipe", "tdpipe"} -> TRUE     \* C ABI queries: judged by the twin only
+    [] e.ev \in {"topvar", "mc", "wmcr", "wmcc", "wmcp", "json", "cnt", "sddpipe", "tdpipe", "cmisc"} -> TRUE     \* C ABI queries: judged by the twin only
 
 (* a numeric answer that is not exactly representable where the property demands an exact value *)
 PropOfQuery(e) == CASE e.ev = "uwmc" /\ loose[e.a[1]] >= 0 -> "C08"
                     [] e.ev \in {"wmc", "uwmc", "eval"} -> "C07"
                     [] e.ev \in {"mmap", "meu", "bb"} -> "C12"
                     [] e.ev = "semhash" -> "C11"
-                    [] e.ev \in {"mc", "wmcr", "wmcc", "wmcp", "sddpipe", "tdpipe"} -> TwinProp
+                    [] e.ev \in {"mc", "wmcr", "wmcc", "wmcp", "sddpipe", "tdpipe", "cmisc"} -> TwinProp
                     [] OTHER -> "C10"
 Query(e) ==
   /\ Req(PropOfQuery(e), "inexact" \notin DOMAIN e)
